@@ -22,6 +22,11 @@ type c01case struct {
 	RtMax int `json:"rtmax,omitempty"`
 	// Entry: the public entry point of the root: "" (Invoke) | "stream" | "transform" (see stream.go)
 	Entry string `json:"entry,omitempty"`
+	// AutoKeys: the chains of the forest are built without WithNodeKey (Chain generates the graph keys)
+	AutoKeys bool `json:"autokeys,omitempty"`
+	// Malformed: which construction rule of a chain was broken on purpose ("" = none); informative only, the
+	// verdict comes from chainCompiles / chain_compiles on the forest itself
+	Malformed string `json:"malformed,omitempty"`
 }
 
 func (c *c01case) entryNo() uint64 {
@@ -63,6 +68,12 @@ func (engine) Generate(r *lib.Rng, tier string, i int) any {
 	}
 	if r.Chance(1, 8) {
 		c.RtMax = r.Range(1, 9)
+	}
+	if hasChain(&c.Case) && r.Chance(1, 3) {
+		c.AutoKeys = true
+	}
+	if hasChain(&c.Case) && r.Chance(1, 6) {
+		c.Malformed = malformChain(r, c)
 	}
 	if streamable(&c.Case) {
 		switch x := r.Intn(8); {
@@ -175,6 +186,15 @@ func addOutKeys(r *lib.Rng, c *gg.Case) {
 	}
 }
 
+func hasChain(c *gg.Case) bool {
+	for gi := range c.Forest {
+		if c.Forest[gi].Front == "chain" {
+			return true
+		}
+	}
+	return false
+}
+
 func hasGraphOutKey(c *gg.Case) bool {
 	for gi := range c.Forest {
 		if g := &c.Forest[gi]; g.Front == "graph" {
@@ -223,6 +243,7 @@ func (engine) Run(c any) lib.Result {
 	if cc.RtMax > 0 {
 		ro.CallOpts = []compose.Option{compose.WithRuntimeMaxSteps(cc.RtMax)}
 	}
+	ro.Build.AutoChainKeys = cc.AutoKeys
 	delayed := (len(cc.Forest)+int(cc.Input.Size()))%4 == 1
 	if delayed {
 		// unequal node durations (0-150us, fixed per node path): lock-step must not depend on who finishes first
@@ -247,6 +268,9 @@ func (engine) Run(c any) lib.Result {
 	if delayed {
 		res.Tags = append(res.Tags, "timing:unequal-nodes")
 	}
+	if cc.AutoKeys {
+		res.Tags = append(res.Tags, "chain:generated-node-keys")
+	}
 	if hasGraphOutKey(&cc.Case) {
 		res.Tags = append(res.Tags, "shape:graph-node-output-key")
 	}
@@ -255,11 +279,26 @@ func (engine) Run(c any) lib.Result {
 	} else {
 		res.Tags = append(res.Tags, "entry:invoke")
 	}
+	accepted, why := forestCompiles(&cc.Case, cc.AutoKeys)
+	if !accepted {
+		res.Tags = append(res.Tags, "malformed-chain:"+why)
+	}
 	if obs.Class == "compile" {
-		// every generated / recorded case is well-formed by construction (distinct keys, declared end nodes, a
-		// Parallel/Branch stage after a single node): a graph or chain that does not compile cannot be run at all
-		res.Tags = append(res.Tags, "not-in-model:compile")
-		res.Oracle, res.Sig = "a well-formed graph/chain was rejected by Compile: "+obs.ErrMsg, "c01:compile"
+		if accepted {
+			// apart from the chains malformed on purpose every generated / recorded case is well-formed by
+			// construction (distinct keys, declared end nodes): it must compile
+			res.Tags = append(res.Tags, "not-in-model:compile")
+			res.Oracle, res.Sig = "a well-formed graph/chain was rejected by Compile: "+obs.ErrMsg, "c01:compile"
+			return res
+		}
+		// a malformed chain was rejected: the model must reject it too (chain_compiles = false)
+		res.CoqTerm = lib.CoqApp("Build_ccase", cs.CoqCase(obs), lib.CoqN(cc.entryNo()))
+		res.Nontrivial = true
+		return res
+	}
+	if !accepted && obs.Class != "panic" && obs.Class != "hang" {
+		res.CoqTerm = lib.CoqApp("Build_ccase", cs.CoqCase(obs), lib.CoqN(cc.entryNo()))
+		res.Oracle, res.Sig = "Compile accepted a malformed chain ("+why+"): it ran as a graph the chain does not describe", "c01:compile-accepted"
 		return res
 	}
 	if obs.Class == "budget" {
